@@ -140,7 +140,7 @@ fn c15_index_normalisation() {
 /// before the first element the predicate rejects; the predicate is called once per examined element, in order.
 native_harness! {
 #[kani::unwind(6)]
-fn c08_take_while_budget_t() {
+fn c08_take_while_budget_x() {
     let mut root = RootCompilationScope::<P, P, P>::new();
     add_sequence_take_while(&mut root).unwrap();
     let nc = last_native(&root);
@@ -198,7 +198,7 @@ fn c08_take_while_budget_t() {
 native_harness! {
 #[kani::stub(crate::runtime::RuntimeStats::get_rng, trip_get_rng)]
 #[kani::unwind(6)]
-fn c11_sample_denied() {
+fn c11_sample_denied_x() {
     let mut root = RootCompilationScope::<RecW, RecR, RecT>::new();
     add_sequence_sample(&mut root).unwrap();
     let nc = last_native(&root);
